@@ -1046,15 +1046,18 @@ def c07_jobs(tier):
         J("verif_C07_rprop", [k], max_paths=400)
     for k in ((2, 3) if quick else (2, 3, 4)):
         J("verif_C07_lineSearch", [k], max_paths=600, bfs=True)
+    # Newton root finding, bit-precise (the vanished-step exit needs floating point)
+    for (k, con, jm) in (((2, 0, 1), (2, 1, 1), (2, 0, 0)) if quick else ((2, 0, 1), (2, 1, 1), (2, 0, 0), (2, 1, 0), (3, 0, 1), (3, 1, 1), (3, 0, 0))):
+        J("verif_C07_newtonRoot", [k, con, jm], mode="fp", max_paths=200, bfs=True, max_wall_ms=100000 if quick else 300000, obl_cap_ms=30000, precise_feas=(jm == 1))
     return jobs
 
 
 PROPS["C07"] = {
-    "overlay": [RT, ("zzverif/c04.go", "zzverif/c04.go"), ("zzverif/c07.go", "zzverif/c07.go")],
+    "overlay": [RT, ("zzverif/c04.go", "zzverif/c04.go"), ("zzverif/c07.go", "zzverif/c07.go"), ("zzverif/c07newton.go", "zzverif/c07newton.go")],
     "patterns": ["./zzverif"],
     "mode": "real", "intmode": "int",
     "jobs": c07_jobs,
-    "reach": ["gd-returned", "rprop-returned", "linesearch-returned"],
+    "reach": ["gd-returned", "rprop-returned", "linesearch-returned", "newton-returned"],
     "replay_tol": 1e-9,
     "job_budget_ms": {"quick": 150000, "thorough": 400000},
     "selftest_vars": [],
